@@ -1,12 +1,10 @@
-(* Executable entry points of every model, in the integer-list protocol shared with the
+(* Executable entry points of the C09 model, in the integer-list protocol shared with the
    Rust harness (harness/src/bin/*.rs).  Encoders/decoders here are unverified glue of the
    correspondence check. *)
 From Coq Require Import String.
 From MJ Require Import Common.Base.
-From MJ Require C09.Model C09.Spec.
+From MJ Require Import C09.Model C09.Spec.
 
-Module R09.
-Import C09.Model C09.Spec.
 Definition kind_of (z : Z) : kind :=
   match z with 0 => KStr | 1 => KBytes | 2 => KTuple | 3 => KSeq | 4 => KLazySized | _ => KLazyUnsized end.
 (* input: kind mode st_tag st sp_tag sp se_tag se form n e1..en *)
@@ -43,8 +41,7 @@ Definition spec (inp : list Z) : list Z :=
            end
   | _ => [9]
   end.
-End R09.
 
 Open Scope string_scope.
 Definition runners : list (string * (list Z -> list Z)) :=
-  [ ("c09", R09.run); ("c09-spec", R09.spec) ].
+  [ ("c09", run); ("c09-spec", spec) ].
